@@ -72,11 +72,10 @@ func (p *Parser) rune() rune {
 	bquotes := 0
 retry:
 	if p.bsp >= uint(len(p.bs)) && p.fill() == 0 {
-		if len(p.bs) == 0 {
-			// Necessary for the last position to be correct.
-			// TODO: this is not exactly intuitive; figure out a better way.
-			p.bsp = 1
-		}
+		// Necessary for the last position to be correct.
+		// Note that the buffer is not empty if its last bytes came with io.EOF.
+		// TODO: this is not exactly intuitive; figure out a better way.
+		p.bsp = uint(len(p.bs)) + 1
 		p.r = runeEOF
 		p.w = 1
 		return p.r
